@@ -1,7 +1,8 @@
 use std::collections::HashSet;
 
-use num_rational::Rational64;
-use num_traits::{Signed, Zero};
+use num_bigint::BigInt;
+use num_rational::{BigRational, Rational64};
+use num_traits::{Signed, ToPrimitive, Zero};
 
 use crate::covers::covers;
 use crate::derived::*;
@@ -32,13 +33,22 @@ pub fn curvature<T: DSym>(ds: &T) -> Rational64 {
     assert!(ds.dim() == 2, "must be two-dimensional");
     assert!(ds.is_complete(), "must be complete");
 
-    let s: Rational64 = orbit_types_2d(ds).iter()
+    // summed in arbitrary precision: the common denominator of many coprime
+    // degrees exceeds i64 long before the curvature itself does
+    let s: BigRational = orbit_types_2d(ds).iter()
         .map(|&(v, loopless)|
-            Rational64::new(if loopless { 2 } else { 1 }, v as i64)
+            BigRational::new(
+                BigInt::from(if loopless { 2 } else { 1 }), BigInt::from(v)
+            )
         )
         .sum();
 
-    s - Rational64::from(ds.size() as i64)
+    let k = s - BigRational::from(BigInt::from(ds.size()));
+
+    Rational64::new(
+        k.numer().to_i64().expect("curvature does not fit into i64"),
+        k.denom().to_i64().expect("curvature does not fit into i64")
+    )
 }
 
 
